@@ -47,6 +47,9 @@ def one(meta):
         # a rule with an open known finding fails on every tree (as KNOWN-FINDING or, where the
         # construct is renamed, as an alarm): it reports a seeded change only of its own property
         sid = os.path.basename(os.path.dirname(meta))[:3]
+        rb = Counter(k.split(" :: ")[0] for k in base)
+        # ... and a rule of another property that already fails on the unpatched commit (a defect
+        # repaired since) is not what reports this change
         rules = sorted(set(k.split(" :: ")[0] for k in new if cg[norm(k)] > cb.get(norm(k), 0) and not (k.split(" :: ")[0] in OPEN_RULES and not k.startswith(sid + "-"))))
         if not rules and m.get("note_rules"):
             # the reporting rule also fails on the (unrepaired) commit the patch applies to: the
